@@ -26,7 +26,7 @@ use std::str::FromStr;
 use std::time::Duration;
 use tempfile::sim as tsim;
 
-pub const RULE: &str = "Each run draws from one tape: 1-2 modules with benign names (spaces, dots, unicode, Windows/POSIX directories before the leaf; optionally without debug info so that the code-id redirect lookup runs), 1-3 supplier instances sharing cache/ and tmp/, 1-2 server URLs, a per-request server behaviour (200 with a body in tape-chosen chunks and delays | 404 | 5xx/403, each without a body, with an HTML page or with a body that is a perfectly good file | connect error | body reset after k bytes | clean EOF after k bytes | corrupt body | body without final newline | stall until the client's timeout fires), per task an optional cancellation after c polls with optional retry, a pre-existing cache entry (none | good | corrupt | a directory at the entry path), tmp/ missing, cache parent blocked by a file, temp-file faults (ENOSPC/EIO on create, short write, EINTR, torn write + ENOSPC, persist failure) and a rival process committing the same entry at the persist seam or mid-download; binary / debug-file lookups that miss fall through to Mozilla's CAB variant of the URL (feature mozilla_cab_symbols is compiled in), answered with a generated cabinet archive (stored | MSZIP; the wanted member alone, behind a directory prefix, among others, twice, or missing) under the same server behaviours. The invariant (every regular file under cache/ is a permitted complete entry — from a 2xx response only —, an entry once there is only ever taken away by the persist step of a commit replacing it, tmp/ holds only live temp files) is evaluated at every temp-file call and after every executor step; at the end every new entry is reloaded through a fresh supplier with no network. NON-TRIVIAL iff at least one download delivered at least one body chunk and at least one fault, cut, cancellation, rival action or second instance occurred. DISTINCT = distinct (world, decision trace) digests among non-trivial runs.";
+pub const RULE: &str = "Each run draws from one tape: 1-2 modules with benign names (spaces, dots, unicode, Windows/POSIX directories before the leaf; optionally without debug info so that the code-id redirect lookup runs), 1-3 supplier instances sharing cache/ and tmp/, 1-2 server URLs, bodies of 6-40 records, optionally with bulk filler, a line of 11-35 KiB (parse buffer growth) or a last-but-one / last line of 170-260 KiB (above the parser's 160 KiB cap: discarded), first hops now and then answered with a 301/302/307 to the object's /cdn/ twin (absolute or relative Location), a per-request server behaviour (200 with a body in tape-chosen chunks and delays | 404 | 5xx/403, each without a body, with an HTML page or with a body that is a perfectly good file | connect error | body reset after k bytes | clean EOF after k bytes | corrupt body | body without final newline | stall until the client's timeout fires), per task an optional cancellation after c polls with optional retry, a pre-existing cache entry (none | good | corrupt | a directory at the entry path), tmp/ missing, cache parent blocked by a file, temp-file faults (ENOSPC/EIO on create, short write, EINTR, torn write + ENOSPC, persist failure) and a rival process committing the same entry at the persist seam or mid-download; binary / debug-file lookups that miss fall through to Mozilla's CAB variant of the URL (feature mozilla_cab_symbols is compiled in), answered with a generated cabinet archive (stored | MSZIP; the wanted member alone, behind a directory prefix, among others, twice, or missing) under the same server behaviours. The invariant (every regular file under cache/ is a permitted complete entry — from a 2xx response only —, an entry once there is only ever taken away by the persist step of a commit replacing it, tmp/ holds only live temp files) is evaluated at every temp-file call and after every executor step; at the end every new entry is reloaded through a fresh supplier with no network. NON-TRIVIAL iff at least one download delivered at least one body chunk and at least one fault, cut, cancellation, rival action or second instance occurred. DISTINCT = distinct (world, decision trace) digests among non-trivial runs.";
 
 const DEBUG_IDS: [&str; 2] = ["5A9832E5287241C1838ED98914E9B7FF1", "0123456789ABCDEF0123456789ABCDEF2"];
 
@@ -99,6 +99,28 @@ fn draw_module(idx: usize) -> ModSpec {
             doc.lines.push(format!("PUBLIC {:x} 0 filler_{}_{}", 0x200000 + i * 16, seed, i).into_bytes());
         }
     }
+    // lines that make the parse buffer grow (10 -> 20 -> 40 KiB) and, more rarely, a line above
+    // the 160 KiB cap that the parser discards: the cached copy must still be the exact bytes
+    if chance("e3.body.long_line", 1, 10) {
+        probe("e3.body_long_line");
+        let n = range("e3.body.long_line.len", 11_000, 35_000) as usize;
+        // right after MODULE or at the end: never between a FUNC and its line records
+        let at = if chance("e3.body.long_line.first", 1, 2) { 1 } else { doc.lines.len() };
+        let mut l = b"PUBLIC 300000 0 ".to_vec();
+        l.extend(std::iter::repeat(b'L').take(n));
+        doc.lines.insert(at, l);
+    }
+    if chance("e3.body.overlong_line", 1, 16) {
+        probe("e3.body_overlong_line");
+        let n = range("e3.body.overlong_line.len", 170_000, 260_000) as usize;
+        let mut l = b"PUBLIC 310000 0 ".to_vec();
+        l.extend(std::iter::repeat(b'X').take(n));
+        // at the end of the file, so that it never separates a FUNC from its line records
+        doc.lines.push(l);
+        if chance("e3.body.overlong_line.followed", 1, 2) {
+            doc.lines.push(b"PUBLIC 320000 0 after_the_long_one".to_vec());
+        }
+    }
     let (body, _) = symgen::render(&doc, symgen::draw_eol(), true);
     ModSpec {
         module: Rc::new(module),
@@ -162,6 +184,18 @@ struct Model {
     persist_failed: BTreeSet<String>,
 }
 
+/// The source-URL note as it follows `delivered` in a cache entry.  The note is a line: when the
+/// downloaded bytes do not end with a newline (the parser accepts that for an over-long last line
+/// only), the line they end in is terminated first — without that the note is swallowed by that
+/// line and a reload loses the URL (§9.1, repaired in /repo).
+fn note_for(delivered: &[u8], url: &str) -> String {
+    if delivered.is_empty() || delivered.last() == Some(&b'\n') {
+        format!("INFO URL {url}\n")
+    } else {
+        format!("\nINFO URL {url}\n")
+    }
+}
+
 fn url_without_query(u: &str) -> String {
     u.split('?').next().unwrap_or(u).to_string()
 }
@@ -177,6 +211,7 @@ impl Model {
         // a .sym entry: delivered ++ trailer of a clean, parseable download of this rel
         let mut any_for_rel = false;
         let mut from_error_response = false;
+        let mut unparseable_match = false;
         for s in &snaps {
             let base = url_without_query(&s.info.url);
             if let Some(&mi) = self.sym_urls.get(&base) {
@@ -193,7 +228,7 @@ impl Model {
                     }
                     continue;
                 }
-                let trailer = format!("INFO URL {}\n", s.info.url);
+                let trailer = note_for(&s.delivered, &s.info.origin_url);
                 if content.len() == s.delivered.len() + trailer.len()
                     && content.starts_with(&s.delivered)
                     && content.ends_with(trailer.as_bytes())
@@ -205,7 +240,9 @@ impl Model {
                     if ok {
                         return Ok(());
                     }
-                    return Err("the entry holds a download whose content does not parse");
+                    // keep looking: another complete download may explain the same bytes (an
+                    // unterminated body plus the separating newline equals the terminated one)
+                    unparseable_match = true;
                 }
             } else if let (Some(r), false) = (self.cab_rels.get(&base), self.file_rels.contains_key(&base)) {
                 if r != rel {
@@ -241,6 +278,9 @@ impl Model {
         }
         if !any_for_rel {
             return Err("a file appeared at a cache path nobody downloaded");
+        }
+        if unparseable_match {
+            return Err("the entry holds a download whose content does not parse");
         }
         if from_error_response {
             return Err("the entry holds the body of an HTTP error response");
@@ -448,6 +488,7 @@ fn draw_plan_for(body: &[u8], allow_stall: bool) -> (Plan, &'static str) {
             label = "corrupt body";
             let mut b = body.to_vec();
             if chance("e3.srv.no_final_newline", 1, 3) {
+                label = "unterminated body";
                 while b.last() == Some(&b'\n') || b.last() == Some(&b'\r') {
                     b.pop();
                 }
@@ -609,17 +650,22 @@ fn install_transport(world: &World, model: &Rc<RefCell<Model>>) {
                     b.push('/');
                 }
                 let Ok(base_url) = reqwest::Url::parse(&b) else { continue };
-                if let Ok(u) = base_url.join(&ms.rel) {
-                    m.sym_urls.insert(u.as_str().to_string(), mi);
-                }
-                for kind in [FileKind::Binary, FileKind::ExtraDebugInfo] {
-                    if let Some(l) = breakpad_symbols::lookup(&*ms.resolved, kind) {
-                        if let Ok(u) = base_url.join(&l.server_rel) {
-                            m.file_rels.insert(u.as_str().to_string(), l.cache_rel.clone());
-                        }
-                        let cl = breakpad_symbols::moz_lookup(l.clone());
-                        if let Ok(u) = base_url.join(&cl.server_rel) {
-                            m.cab_rels.insert(u.as_str().to_string(), l.cache_rel.clone());
+                // every object also lives under /cdn/ on the same host: where a redirected
+                // request ends up
+                let Ok(cdn_url) = base_url.join("/cdn/") else { continue };
+                for bu in [&base_url, &cdn_url] {
+                    if let Ok(u) = bu.join(&ms.rel) {
+                        m.sym_urls.insert(u.as_str().to_string(), mi);
+                    }
+                    for kind in [FileKind::Binary, FileKind::ExtraDebugInfo] {
+                        if let Some(l) = breakpad_symbols::lookup(&*ms.resolved, kind) {
+                            if let Ok(u) = bu.join(&l.server_rel) {
+                                m.file_rels.insert(u.as_str().to_string(), l.cache_rel.clone());
+                            }
+                            let cl = breakpad_symbols::moz_lookup(l.clone());
+                            if let Ok(u) = bu.join(&cl.server_rel) {
+                                m.cab_rels.insert(u.as_str().to_string(), l.cache_rel.clone());
+                            }
                         }
                     }
                 }
@@ -635,6 +681,29 @@ fn install_transport(world: &World, model: &Rc<RefCell<Model>>) {
             let m = model2.borrow();
             (m.sym_urls.get(&base).copied(), m.file_rels.contains_key(&base), m.cab_rels.get(&base).cloned())
         };
+        // a known object asked for directly by a redirect-following client: now and then the
+        // server sends the client to the object's /cdn/ twin (signed-URL style)
+        if (sym_mod.is_some() || is_file || cab_rel.is_some()) && info.follows_redirects && info.url == info.origin_url && chance("e3.srv.redirect", 1, 8) {
+            if let Ok(u) = reqwest::Url::parse(&info.url) {
+                if let Some(tail) = u.path().strip_prefix("/base/") {
+                    probe("e3.object_redirect");
+                    let code = [302u16, 301, 307][ch("e3.srv.redirect.code", 3) as usize];
+                    let loc = if chance("e3.srv.redirect.absolute", 1, 2) {
+                        format!("http://{}/cdn/{}?sig=5eed", u.host_str().unwrap_or("sym0.example"), tail)
+                    } else {
+                        format!("/cdn/{}?sig=5eed", tail)
+                    };
+                    let mut plan = Plan::redirect(code, &loc);
+                    plan.head_delay = draw_delay("e3.srv.head_delay");
+                    // a redirect may carry a little body of its own, which is nobody's file
+                    if chance("e3.srv.redirect.body", 1, 2) {
+                        plan.body = b"<html>moved</html>\n".to_vec();
+                    }
+                    simkit::log_line(|| format!("server: {} -> {} for {}", code, loc, info.url));
+                    return plan;
+                }
+            }
+        }
         if let Some(mi) = sym_mod {
             if !info.follows_redirects {
                 // a code-id lookup that happens to equal the sym URL: answer like a plain server
@@ -646,6 +715,7 @@ fn install_transport(world: &World, model: &Rc<RefCell<Model>>) {
                 "clean cut" => probe("e3.cut_clean"),
                 "stall" => probe("e3.stall"),
                 "corrupt body" => probe("e3.corrupt_body"),
+                "unterminated body" => probe("e3.unterminated_body"),
                 _ => {}
             }
             simkit::log_line(|| format!("server: {} for {}", label, info.url));
@@ -989,7 +1059,7 @@ fn run_inner(c12_files: bool) -> Outcome {
                     let mut candidates: Vec<(Vec<u8>, Option<String>)> = Vec::new();
                     for s in snaps.iter().filter(|s| s.saw_eof) {
                         if model.borrow().sym_urls.get(&url_without_query(&s.info.url)).copied() == Some(op.module) || world.mods[op.module].rel == world.mods[model.borrow().sym_urls.get(&url_without_query(&s.info.url)).copied().unwrap_or(op.module)].rel {
-                            candidates.push((s.delivered.clone(), Some(s.info.url.clone())));
+                            candidates.push((s.delivered.clone(), Some(s.info.origin_url.clone())));
                         }
                     }
                     if let Some(v) = model.borrow().foreign.get(&ms.rel) {
@@ -1081,10 +1151,10 @@ fn run_inner(c12_files: bool) -> Outcome {
                 }
             } else {
                 for s in snaps.iter().filter(|s| s.saw_eof) {
-                    let trailer = format!("INFO URL {}\n", s.info.url);
+                    let trailer = note_for(&s.delivered, &s.info.origin_url);
                     if content.len() == s.delivered.len() + trailer.len() && content.starts_with(&s.delivered) && content.ends_with(trailer.as_bytes()) {
                         if let Ok(mut t) = SymbolFile::from_bytes(&s.delivered) {
-                            t.url = Some(s.info.url.clone());
+                            t.url = Some(s.info.origin_url.clone());
                             expected = Some(t);
                             probe("e3.commit");
                         }
@@ -1122,7 +1192,7 @@ fn run_inner(c12_files: bool) -> Outcome {
         // C12 (files scenario): each file URL requested at most once per supplier instance
         if c12_files {
             let mut seen: BTreeMap<(u32, String), u32> = BTreeMap::new();
-            for s in &snaps {
+            for s in snaps.iter().filter(|s| s.info.url == s.info.origin_url) {
                 *seen.entry((s.info.client, s.info.url.clone())).or_insert(0) += 1;
             }
             for ((_c, _u), n) in seen {
